@@ -156,11 +156,7 @@ func resolveNames(p *gen.Program, spanOf func(n any, kind string) [4]int) (must 
 	uses := collectUses(p)
 	ui := 0
 	for i, d := range p.Vars {
-		if _, dup := declared[d.Name.Name]; dup {
-			must = append(must, nameDiag{"duplicate", d.Name.Name, spanOf(d.Name, "VarName")})
-		} else {
-			declared[d.Name.Name] = i
-		}
+		// the origin is evaluated before the variable exists: its arguments see the earlier declarations only
 		for ui < len(uses) && uses[ui].inDecl == i {
 			u := uses[ui]
 			ui++
@@ -170,6 +166,11 @@ func resolveNames(p *gen.Program, spanOf func(n any, kind string) [4]int) (must 
 				must = append(must, nameDiag{"unbound", u.v.Name, spanOf(u.v, "Variable")})
 				usedBefore[u.v.Name] = true
 			}
+		}
+		if _, dup := declared[d.Name.Name]; dup {
+			must = append(must, nameDiag{"duplicate", d.Name.Name, spanOf(d.Name, "VarName")})
+		} else {
+			declared[d.Name.Name] = i
 		}
 	}
 	for ; ui < len(uses); ui++ {
@@ -286,7 +287,7 @@ func c16Edit(o *mc.Explorer, p *gen.Program) (string, bool) {
 		}
 		i := o.Choose(len(p.Vars))
 		j := o.Choose(len(p.Vars))
-		if i == j || p.Vars[i].Origin != nil {
+		if p.Vars[i].Origin != nil {
 			return "", false
 		}
 		p.Vars[i].Origin = &gen.Call{Name: "meta", Args: []gen.Expr{gen.V(p.Vars[j].Name.Name), gen.Str("k")}}
